@@ -267,6 +267,68 @@ def prepare_env(env):
     env.fixed.update({"XX": xx, "YY": yy, "XY": (xx * yy) ** 0.5 * rho * cmath.exp(1j * ph)})
 
 
+def count_guard_alternatives(v):
+    """v = (navg <op> c ? a : b) with c an integer constant: [(substitution, leaf, description)] for the feasible cases given navg >= 1:
+    the one-sided branch stays symbolic, the bounded branch is instantiated at its admissible counts (at most three)."""
+    if not isinstance(v, PV): return None
+    d = getattr(v.cond, "lt", None)
+    if d is None: return None
+    n = X.var("navg")
+    for sg in (1, -1):
+        try: c = (d - n * sg).constval()
+        except Unknown: c = None
+        if c is None or c.im != 0 or Fr(c.re).denominator != 1: continue
+        c = int(c.re)
+        # sg=+1: d = navg + c < 0  <=>  navg < -c ; sg=-1: d = -navg + c < 0  <=>  navg > c
+        if sg == 1: lo_true, hi_true = 1, -c - 1          # navg in [1, -c-1] on the true branch
+        else: lo_true, hi_true = c + 1, None               # navg >= c+1 on the true branch
+        out = []
+        def bounded(lo, hi, leaf, text):
+            if hi is not None and hi < lo: return True      # infeasible for navg >= 1
+            if hi is None: out.append(({}, leaf, text)); return True
+            if hi - lo > 2: return False
+            for k in range(lo, hi + 1): out.append(({"navg": X.const(k)}, leaf, f"{text}, navg = {k}"))
+            return True
+        t_ok = bounded(max(1, lo_true), hi_true, v.hi, v.cond.text)
+        if sg == 1: f_ok = bounded(max(1, -c), None, v.lo, f"not({v.cond.text})")
+        else: f_ok = bounded(1, c, v.lo, f"not({v.cond.text})")
+        if t_ok and f_ok: return out
+        return None
+    return None
+
+
+def feasible_branches(v, seed=0):
+    """v = (d < 0 ? a : b) with d a data-dependent quantity: the branches that occur for admissible statistics (sampled over coherences
+    from ~0 to ~1 and powers over many decades; Cauchy-Schwarz respected).  The documented function has no case split, so the cell must
+    equal it on every branch that can occur."""
+    if not isinstance(v, PV): return None
+    d = getattr(v.cond, "lt", None)
+    if d is None: return None
+    from .symalg import NumEnv, evalx
+    seen = set()
+    for k in range(80):
+        env = NumEnv(seed + 100 + k, heavy=(k % 2 == 1))
+        prepare_env(env)
+        if k % 4 >= 2:
+            # coherence very close to 1 or to 0
+            import cmath
+            xx, yy = env.fixed["XX"], env.fixed["YY"]
+            u = env._u("edge")
+            rho = (1 - 10.0 ** (-14 * u)) if k % 4 == 2 else 10.0 ** (-14 * u)
+            env.fixed["XY"] = (xx * yy) ** 0.5 * rho * cmath.exp(6.28j * env._u("ph2"))
+        try:
+            val = evalx(d, env)
+        except Exception:
+            continue
+        if val != val: continue
+        seen.add(val.real < 0)
+    if not seen: return None
+    out = []
+    if True in seen: out.append(({}, v.hi, v.cond.text))
+    if False in seen: out.append(({}, v.lo, f"not({v.cond.text})"))
+    return out
+
+
 def check_cell(ctx, T, name, iscsd, ref, rule):
     """one table cell against the reference entry."""
     construct = f"{GETATTR}[{name}|{'cross' if iscsd else 'auto'}]"
@@ -290,7 +352,21 @@ def check_cell(ctx, T, name, iscsd, ref, rule):
     if is_opaque(g):
         return ctx.ob(rule, construct, VIOLATED if isinstance(g, Mismatch) else UNKNOWN, g.why, where)
     if isinstance(g, PV):
-        return ctx.unknown(rule, construct, f"value depends on an unrecognised condition {g.cond}", where)
+        alts = count_guard_alternatives(g)
+        if alts is None: alts = feasible_branches(g, ctx.seed)
+        if alts is None:
+            return ctx.unknown(rule, construct, f"value depends on an unrecognised condition {g.cond}", where)
+        # a guard on the segment count (navg >= 1, an integer): the cell must be the reference on the generic branch and at the boundary count
+        for sub, leaf, text in alts:
+            lg = generic(leaf)
+            if is_opaque(lg) or isinstance(lg, PV) or to_x(lg) is None:
+                return ctx.unknown(rule, construct, f"value on the branch [{text}] not recognised", where)
+            lx, wx = to_x(lg), want
+            if sub: lx, wx = lx.subst(sub), want.subst(sub)
+            st, why = compare(lx, wx, prepare=prepare_env, seed=ctx.seed)
+            if st != HOLDS:
+                return ctx.ob(rule, construct, st, f"on the branch [{text}] the value differs from the documented function {why}", where, lhs=lx, rhs=wx)
+        return ctx.holds(rule, construct, "equal to the documented function on the generic branch and at the boundary segment count", where)
     gx = to_x(g)
     if gx is None:
         return ctx.unknown(rule, construct, f"non-scalar cell value {g!r}"[:200], where)
